@@ -8,7 +8,7 @@ import (
 var _ exported.ConsensusState = (*ConsensusState)(nil)
 
 func (m *ConsensusState) ClientType() string {
-	return exported.BSC
+	return exported.ETH
 }
 
 func (m *ConsensusState) GetRoot() exported.Root {
